@@ -30,8 +30,10 @@ type foreignSpec struct {
 	Extras   bool          `json:"extras"`
 	FileOff  string        `json:"fileoff"`
 	NoStripe bool          `json:"nostripe"` // huge files: skip the (quadratic) TLC re-check of the harness's own striping
-	Seed     uint64        `json:"seed"`
-	Unsup    *struct {
+	// ReverseChunks: chunks stored in reverse schema order; only introspection is run on such a file (the reader does not support it)
+	ReverseChunks bool   `json:"reversechunks"`
+	Seed          uint64 `json:"seed"`
+	Unsup         *struct {
 		RG      int    `json:"rg"`
 		Col     int    `json:"col"`
 		Page    int    `json:"page"`
@@ -169,7 +171,7 @@ func runForeign(c jobCase) {
 	leafPaths(schemaRoot, nil, nil, &lps)
 	// canonical rows (tokens reduced modulo the pool sizes, as the reader will report them)
 	ctx := buildCtx{poff: c.Poff}
-	spec := pq.FileSpec{Extras: fs.Extras, FileOffset: fs.FileOff, LongForm: fs.Seed%3 == 0}
+	spec := pq.FileSpec{Extras: fs.Extras, FileOffset: fs.FileOff, LongForm: fs.Seed%3 == 0, ReverseChunks: fs.ReverseChunks}
 	spec.Schema = []pq.SchemaElem{{Name: "schema", Type: -1, CType: -1, Rep: -1, NumChildren: len(schemaRoot)}}
 	schemaElems(schemaRoot, &spec.Schema)
 	colEntries := make([][][]int, len(cols))
@@ -265,6 +267,12 @@ func runForeign(c jobCase) {
 		"nostripe": fs.NoStripe})
 	if c.KeepFile != "" {
 		writeFile(c.KeepFile, file)
+	}
+	if fs.ReverseChunks {
+		if c.Intro {
+			runIntro(file, true)
+		}
+		return
 	}
 	limit := len(fs.Rows)*2 + 50
 	res := runReader(file, &source{data: file}, c.Poff, limit, false)
